@@ -94,7 +94,11 @@ class Scratch:
         want = {}
         for m in modules:
             lines = want.setdefault(m.src, [])
-            lines.append('#[cfg(kani)] #[path = "%s"] mod %s;' % (m.path, m.modname))
+            # crates other than dc are only verified in builds that switch their `testing` feature/cfg on; when
+            # they are compiled as a mere dependency of another crate's Kani build (dc depends on core and
+            # transport, cfg(kani) is set there too) the harness modules must stay out
+            gate = "kani" if m.crate == "dc" else 'all(kani, feature = "testing")'
+            lines.append('#[cfg(%s)] #[path = "%s"] mod %s;' % (gate, m.path, m.modname))
             lines.append('#[cfg(all(test, aws_s2n_quic_verif_replay))] #[path = "%s"] mod %s_replay;'
                          % (os.path.join(self.replay_dir, m.modname + ".rs"), m.modname))
         state_p = os.path.join(self.dir, ".injected")
